@@ -101,8 +101,11 @@ func NewUnboundedPriorityMailBox(priorityFunc PriorityFunc) *UnboundedPriorityMa
 func (q *UnboundedPriorityMailBox) Enqueue(msg *ReceiveContext) error {
 	q.lock.Lock()
 	hp.Push(q.heap, msg)
-	q.lock.Unlock()
+	// length is updated inside the critical section so that it equals the heap
+	// size whenever the lock is free: IsEmpty/Dequeue can then never report
+	// empty while a completed Enqueue is still in the heap.
 	atomic.AddInt64(&q.length, 1)
+	q.lock.Unlock()
 	return nil
 }
 
@@ -115,8 +118,8 @@ func (q *UnboundedPriorityMailBox) Dequeue() (msg *ReceiveContext) {
 	}
 	q.lock.Lock()
 	msg = hp.Pop(q.heap).(*ReceiveContext)
-	q.lock.Unlock()
 	atomic.AddInt64(&q.length, -1)
+	q.lock.Unlock()
 	return msg
 }
 
